@@ -37,7 +37,8 @@ COMPONENTS = {
 }
 ASSUMPTIONS = [
     'RefResolve encodes resolution as the property states it; locations are compared modulo ./.. and duplicate slashes',
-    'system prefixes are configured with a trailing separator (the property does not say what a prefix without one means)',
+    'a system reference is resolved against the configured prefix exactly as a reference is resolved against a file '
+    'location (url_file_relative): prefixes with and without a final separator and the empty prefix are all generated',
     'torn reads cut at top-level statement boundaries (byte-level cuts are exercised under C06)',
 ]
 
